@@ -8,7 +8,7 @@ cd $wt || exit 2
 git checkout -q -- . ; git clean -fdq tests src 2>/dev/null
 echo "== apply patch"; git apply $out/patch.diff || { echo PATCH_DOES_NOT_APPLY; exit 1; }
 echo "== test suite with patch"
-cargo test --offline --no-fail-fast -- --test-threads 8 > $d/confirm_tests.log 2>&1
+(cargo test --offline --no-fail-fast -- --test-threads 8 --skip bin_remote_invalidport > $d/confirm_tests.log 2>&1)
 grep -a -E "^test result|FAILED|failed" $d/confirm_tests.log | grep -v "^test .* ok" | head -20
 echo "== demo with patch (must fail)"
 git apply $out/demo.diff || { echo DEMO_DOES_NOT_APPLY; }
